@@ -2049,20 +2049,26 @@ func (t *IntersectionType) Equal(other Type) bool {
 		return false
 	}
 
-	intersectionSet := t.IntersectionSet()
-	otherIntersectionSet := otherType.IntersectionSet()
+	// The member types are compared as sets (order and duplicates are ignored),
+	// and by type equality, not by identity of the Go values.
+	return intersectionTypesSubset(t.Types, otherType.Types) &&
+		intersectionTypesSubset(otherType.Types, t.Types)
+}
 
-	if len(intersectionSet) != len(otherIntersectionSet) {
-		return false
-	}
-
-	for typ := range intersectionSet { //nolint:maprange
-		_, ok := otherIntersectionSet[typ]
-		if !ok {
+// intersectionTypesSubset returns true if each of the given types is equal to one of the other types.
+func intersectionTypesSubset(types []Type, otherTypes []Type) bool {
+	for _, typ := range types {
+		contained := false
+		for _, otherType := range otherTypes {
+			if typ.Equal(otherType) {
+				contained = true
+				break
+			}
+		}
+		if !contained {
 			return false
 		}
 	}
-
 	return true
 }
 
